@@ -284,6 +284,7 @@ func udpRequestReply(ctx context.Context, conn net.Conn, request []byte,
 		}
 
 		if t != tid {
+			err = errors.New("transaction id mismatch")
 			continue
 		}
 
